@@ -17,7 +17,7 @@ func newFnEnc(e *Eng, fn *ssa.Function, c *Contract, want func([]string) bool) *
 		tuples: map[ssa.Value][]Val{}, tupleAddrs: map[ssa.Value][]*Addr{}, arrLens: map[string]int64{}, cellName2: map[*ssa.Alloc]string{},
 		byteOrigin: map[ssa.Value]*Addr{}, smallArr: map[ssa.Value]smallArrInfo{}, cellClos: map[*ssa.Alloc]*ssa.MakeClosure{},
 		cellAddr: map[*ssa.Alloc]*Addr{}, cellProv: map[*ssa.Alloc]Prov{}, cellFnKey: map[*ssa.Alloc]string{}, fnKeys: map[ssa.Value]string{},
-		storeCount: map[*ssa.Alloc]int{}, paramVals: map[string]ssa.Value{}}
+		storeCount: map[*ssa.Alloc]int{}, paramVals: map[string]ssa.Value{}, unmodelled: map[string]bool{}}
 	return f
 }
 
@@ -346,6 +346,10 @@ func (f *FnEnc) encode() {
 	// preconditions
 	if f.c != nil {
 		for _, r := range f.c.Requires {
+			if un := f.e.unresolved(r.Expr, f.baseEnv(f.st)); len(un) > 0 {
+				f.fail("requires %s refers to unknown name(s) %v", r.Label, un)
+				return
+			}
 			t := f.evalClause(r.Expr, f.baseEnv(f.st))
 			f.emit("(assert %s) ; requires %s", t, r.Label)
 			f.assumed = append(f.assumed, "requires "+r.Label)
@@ -538,6 +542,9 @@ func (f *FnEnc) loopHead(li *loopInfo) {
 	if f.c != nil {
 		for _, inv := range f.c.Invs {
 			if inv.Loop != li.ord {
+				continue
+			}
+			if len(f.e.unresolved(inv.Expr, f.baseEnv(f.st))) > 0 {
 				continue
 			}
 			t := f.evalClause(inv.Expr, f.baseEnv(f.st))
